@@ -908,7 +908,7 @@ class EditableParentImpl(BaseParentImpl):
                                          io_args=dargs)
 
         try:
-            self.set_attr(name, result)
+            self.set_attr(name, result, refmode="auto")
         except (ValueError, KeyError, AttributeError):
             self.system.iomanager.del_spec(result)
             raise KeyError("cannot assign '%s'" % name)
@@ -930,7 +930,7 @@ class EditableParentImpl(BaseParentImpl):
             io_args={"file_type": file_type}
         )
         try:
-            self.set_attr(name, data)
+            self.set_attr(name, data, refmode="auto")
         except (ValueError, KeyError, AttributeError):
             self.system.iomanager.del_spec(spec)
             raise KeyError("cannot assign '%s'" % name)
@@ -951,7 +951,7 @@ class EditableParentImpl(BaseParentImpl):
         )
 
         try:
-            self.set_attr(name, spec.value)
+            self.set_attr(name, spec.value, refmode="auto")
         except (ValueError, KeyError, AttributeError):
             self.system.iomanager.del_spec(spec)
             raise KeyError("cannot assign '%s'" % name)
